@@ -152,12 +152,13 @@ def unit_late_classes():
         # user classes resolve by name whenever they were defined: before or after other Cids were created, and after a plug-in import
         def late_check(order):
             import subprocess, sys, tempfile, shutil
-            tmp = tempfile.mkdtemp(prefix="vf_plugin_")
+            tmp = tempfile.mkdtemp(prefix="vf_plugin_[v2] " if "bracket" in order else "vf_plugin_")      # a folder name is a name, not a glob pattern
             try:
                 # every *.py file of the folder is a plug-in module, whatever its name
                 for fname, cname in (("p.py", "FolderCheck"), ("__init__.py", "InitFolderCheck"), ("_private.py", "PrivateFolderCheck")):
                     with open(os.path.join(tmp, fname), "w") as f: f.write("from cutplace import checks\nclass %s(checks.AbstractCheck):\n    pass\n" % cname)
-                steps = {"cid": "interface.Cid()\n", "plugins": "interface.import_plugins(%r)\n" % tmp,
+                steps = {"cid": "interface.Cid()\n", "plugins": "interface.import_plugins(%r)\n" % tmp, "bracket": "",
+                         "gc": "import gc\ngc.collect()\n",       # plug-in classes stay available however long the process runs (a garbage collection must not take them away)
                          "derive": "class LateFieldFormat(fields.TextFieldFormat):\n    pass\nclass LateCheck(checks.IsUniqueCheck):\n    pass\n",        # user classes built on the built-in ones
                          "define": "class LateFieldFormat(fields.AbstractFieldFormat):\n    def __init__(self, n, e, l, r, d):\n        super().__init__(n, e, l, r, d, empty_value='')\n    def validated_value(self, v):\n        return v\n"
                                    "class LateCheck(checks.AbstractCheck):\n    pass\n"}
@@ -169,9 +170,10 @@ def unit_late_classes():
                 return None if p.stdout.strip().endswith(want) else {"expected": want, "observed": (p.stdout + p.stderr)[-400:]}
             finally:
                 shutil.rmtree(tmp, ignore_errors=True)
-        orders = [("derive",), ("cid", "derive"), ("define",), ("cid", "define"), ("cid", "define", "cid"), ("plugins", "define"), ("cid", "plugins", "define"), ("define", "cid", "plugins"), ("cid", "plugins", "cid", "define", "cid")]
+        orders = [("derive",), ("cid", "derive"), ("define",), ("cid", "define"), ("cid", "define", "cid"), ("plugins", "define"), ("cid", "plugins", "define"), ("define", "cid", "plugins"), ("cid", "plugins", "cid", "define", "cid"),
+                  ("plugins", "gc", "define"), ("cid", "plugins", "gc", "cid", "define", "gc"), ("bracket", "plugins", "define")]
         r3 = sweep("C20/protocol/user classes resolve by class name whenever they are defined (before / after other Cids, after a plug-in import)", orders, late_check, "bounded",
-                   "9 orders of {create a Cid, import a plug-in folder, define user classes (directly on the abstract base classes, or derived from a built-in class)} before the CID that names them is read (one subprocess each)", describe=lambda o: {"order": list(o)},
+                   "12 orders of {create a Cid, import a plug-in folder (also one whose name contains glob characters), run a garbage collection, define user classes (directly on the abstract base classes, or derived from a built-in class)} before the CID that names them is read (one subprocess each)", describe=lambda o: {"order": list(o)},
                    function="interface.Cid.__init__ + _create_name_to_class_map + import_plugins", unit="C20.late-classes")
         def close_once_check(kind):
             import io
